@@ -23,7 +23,8 @@ MANIFEST = {
             "fed the bytes reports exactly that message and is idle again; concatenations give one message per frame; "
             "(safety) from every reachable state every byte is processed without buffer-index fault and a reported message "
             "is the decoding of a buffer with consistent length byte, checksum and embedded data length, and the consumed "
-            "stream ends with exactly that complete frame (ghost-history invariant); (resync) after any "
+            "stream ends with exactly that complete frame (ghost-history invariant), and has DataLen <= 223 with exactly that many payload bytes (both "
+            "frame types); (resync) from an idle reader stray 0x10 bytes in front of a frame do not hide it; after any "
             "byte other than 0x10 the next well-formed frame is reported, of two consecutive frames the second always is; "
             "splitting the stream between calls does not change the result. Tied to the C++ by a correspondence run (encoder: "
             "all lengths x escape counts x positions; reader: concatenations with garbage and 9 kinds of malformed frames, "
